@@ -56,6 +56,7 @@ var (
 	ErrCorruptedBlock    = errors.New("block checksum mismatch")
 	ErrCorruptedEntry    = errors.New("entry data corrupted")
 	ErrEmptyKey          = errors.New("entry key cannot be empty")
+	ErrKeyTooLong        = errors.New("entry key exceeds the maximum encodable length of 65535 bytes")
 	ErrFileClosed        = errors.New("file is closed")
 	ErrCompactionRunning = errors.New("compaction is already running")
 )
@@ -289,6 +290,22 @@ func (e *Entry) Deserialize(buf []byte) (int, error) {
 	offset += dataLen
 
 	return offset, nil
+}
+
+// MaxKeyLength is the longest key the 2-byte key-length field can describe.
+const MaxKeyLength = 65535
+
+// Validate reports whether the entry can be written so that it reads back
+// unchanged: the reader rejects empty keys, and the key length is stored in
+// two bytes.
+func (e *Entry) Validate() error {
+	if e.Key == "" {
+		return ErrEmptyKey
+	}
+	if len(e.Key) > MaxKeyLength {
+		return ErrKeyTooLong
+	}
+	return nil
 }
 
 // Size returns the serialized size of the entry
